@@ -129,6 +129,51 @@ func PolygonOf(p PolyS) *s2.Polygon {
 	return s2.PolygonFromLoops(loops)
 }
 
+// ValidPoly reports whether a lat/lng polygon specification is a polygon: every
+// loop a valid s2 loop, the loops after the first strictly inside the first and
+// outside each other, and no two loops crossing. (Shrinking moves vertices, and
+// can leave a hole poking through its shell.)
+func ValidPoly(p PolyS) bool {
+	if len(p.Loops) == 0 {
+		return false
+	}
+	loops := make([]*s2.Loop, 0, len(p.Loops))
+	for _, l := range p.Loops {
+		if len(l) < 3 {
+			return false
+		}
+		pts := make([]s2.Point, 0, len(l))
+		for _, v := range l {
+			pts = append(pts, v.Point())
+		}
+		loop := s2.LoopFromPoints(pts)
+		if loop.Validate() != nil {
+			return false
+		}
+		loops = append(loops, loop)
+	}
+	for i, a := range loops {
+		for j, b := range loops {
+			if i >= j {
+				continue
+			}
+			for k := 0; k < a.NumVertices(); k++ {
+				for m := 0; m < b.NumVertices(); m++ {
+					if s2.CrossingSign(a.Vertex(k), a.Vertex(k+1), b.Vertex(m), b.Vertex(m+1)) != s2.DoNotCross {
+						return false
+					}
+				}
+			}
+			for m := 0; m < b.NumVertices(); m++ {
+				if inside := a.ContainsPoint(b.Vertex(m)); inside != (i == 0) {
+					return false // holes lie inside the shell, and outside each other
+				}
+			}
+		}
+	}
+	return true
+}
+
 // ToIngest converts a specification to a fresh ingest feature. Geometry tags
 // go after the other tags, as FillFromOSM does.
 func ToIngest(f FeatureS) ingest.Feature {
